@@ -128,6 +128,15 @@ type hconf struct {
 	MaxElem uint
 }
 
+// wideKeys: k0..k3 for the ordinary histories, up to 32 keys (all two bytes long) for the wide ones.
+var wideKeys = func() []string {
+	out := []string{"k0", "k1", "k2", "k3"}
+	for c := 'a'; len(out) < 32; c++ {
+		out = append(out, "w"+string(c))
+	}
+	return out
+}()
+
 func confs() []hconf {
 	return []hconf{
 		{"unbounded", 0, 0, false, 0, false, 0},
@@ -233,7 +242,7 @@ func (h *history) run(p plan, rng *rand.Rand) {
 	}
 	h.c = cache.New(cc)
 	h.inSets = map[int64]struct{}{}
-	keys := []string{"k0", "k1", "k2", "k3"}[:p.keys]
+	keys := wideKeys[:p.keys]
 	type step struct {
 		kind, key int
 		yield     int
@@ -345,7 +354,7 @@ func overlaps(recs []rec, into *[nKinds][nKinds]int64) (any2 bool) {
 func (h *history) check(keys int) (res porcupine.CheckResult, badKey string, info porcupine.LinearizationInfo) {
 	all := append(append([]rec{}, h.recs...), h.evicts...)
 	res = porcupine.Ok
-	for _, key := range []string{"k0", "k1", "k2", "k3"}[:keys] {
+	for _, key := range wideKeys[:keys] {
 		var ops []porcupine.Operation
 		for _, r := range all {
 			if r.in.Key == key || r.in.Kind == kClear {
@@ -438,6 +447,10 @@ func TestLinearizable(t *testing.T) {
 		rng := r.Rand(uint64(i))
 		cf := cfs[i%len(cfs)]
 		p := plan{workers: 2 + rng.IntN(7), keys: 1 + rng.IntN(3), opsPer: 4 + rng.IntN(7)}
+		if i%16 == 15 {
+			// many keys: long usage lists, every Set on a bounded cache evicts someone else's key
+			p.keys = 8 + rng.IntN(17)
+		}
 		switch rng.IntN(4) {
 		case 0:
 			p.mix = [nKinds]int{5, 5, 2, 0, 0, 1} // no Clear: hit/miss are checkable
